@@ -213,6 +213,13 @@ def flex_layout(context, box, bottom_space, skip_stack, containing_block, page_i
 
         if child.style['flex_basis'] == 'content':
             flex_basis = 'content'
+        elif (
+                available_main_space == inf and
+                child.style['flex_basis'] != 'auto' and
+                child.style['flex_basis'].unit == '%'):
+            # A percentage of an indefinite main size behaves as content, see
+            # https://www.w3.org/TR/css-flexbox-1/#flex-basis-property.
+            flex_basis = 'content'
         else:
             flex_basis = percent.percentage(
                 child.style['flex_basis'], available_main_space)
